@@ -136,6 +136,8 @@ SerialVal(k) == <<118, 48 + k>>                    \* "v0", "v1", ...
 Offered == IF Serial THEN {SerialVal(nv)} ELSE Values
 Consume == nv' = IF Serial THEN nv + 1 ELSE nv
 
+On(a) == a \in Acts
+
 InitState ==
     /\ m = <<>> /\ c = <<>> /\ hasc = FALSE /\ last = <<>> /\ nv = 0
     /\ ret = <<>> /\ err = "none"
@@ -143,6 +145,7 @@ InitState ==
 
 (* h.add(n, v) *)
 Add(n, v) ==
+    /\ On("add")
     /\ IF ValidName(n) /\ ValidValue(v)
          THEN m' = AddTo(m, Norm(n), v) /\ last' = Norm(n) /\ err' = "none"
          ELSE UNCHANGED <<m, last>> /\ err' = "HTTPInputError"
@@ -151,12 +154,14 @@ Add(n, v) ==
 
 (* h[n] = v *)
 Set(n, v) ==
+    /\ On("set")
     /\ m' = SetIn(m, Norm(n), v)
     /\ ret' = <<>> /\ err' = "none" /\ Consume /\ UNCHANGED <<c, hasc, last>>
     /\ step' = Obs("set", <<n, v>>)
 
 (* del h[n]: any name reported present can be deleted; KeyError iff absent *)
 Del(n) ==
+    /\ On("del")
     /\ IF Has(m, Norm(n)) THEN m' = DelFrom(m, Norm(n)) /\ err' = "none"
                           ELSE UNCHANGED m /\ err' = "KeyError"
     /\ ret' = <<>> /\ UNCHANGED <<c, hasc, last, nv>>
@@ -164,35 +169,41 @@ Del(n) ==
 
 (* h[n]: values joined by commas *)
 Get(n) ==
+    /\ On("get")
     /\ IF Has(m, Norm(n)) THEN ret' = <<Join(ValuesOf(m, Norm(n)))>> /\ err' = "none"
                           ELSE ret' = <<>> /\ err' = "KeyError"
     /\ UNCHANGED <<m, c, hasc, last, nv>>
     /\ step' = Obs("get", <<n>>)
 
 GetList(n) ==
+    /\ On("getlist")
     /\ ret' = ValuesOf(m, Norm(n)) /\ err' = "none"
     /\ UNCHANGED <<m, c, hasc, last, nv>>
     /\ step' = Obs("getlist", <<n>>)
 
 In(n) ==
+    /\ On("in")
     /\ ret' = Bool(Has(m, Norm(n))) /\ err' = "none"
     /\ UNCHANGED <<m, c, hasc, last, nv>>
     /\ step' = Obs("in", <<n>>)
 
 (* list(h) *)
 Iter ==
+    /\ On("iter")
     /\ ret' = Keys(m) /\ err' = "none"
     /\ UNCHANGED <<m, c, hasc, last, nv>>
     /\ step' = Obs("iter", <<>>)
 
 (* list(h.items()) *)
 ItemsOp ==
+    /\ On("items")
     /\ ret' = Items(m) /\ err' = "none"
     /\ UNCHANGED <<m, c, hasc, last, nv>>
     /\ step' = Obs("items", <<>>)
 
 (* v = h.pop(n): MutableMapping.pop = get then delete *)
 Pop(n) ==
+    /\ On("pop")
     /\ IF Has(m, Norm(n)) THEN ret' = <<Join(ValuesOf(m, Norm(n)))>> /\ m' = DelFrom(m, Norm(n)) /\ err' = "none"
                           ELSE ret' = <<>> /\ UNCHANGED m /\ err' = "KeyError"
     /\ UNCHANGED <<c, hasc, last, nv>>
@@ -200,11 +211,13 @@ Pop(n) ==
 
 (* c = h.copy() *)
 Copy ==
+    /\ On("copy")
     /\ c' = m /\ hasc' = TRUE
     /\ ret' = <<>> /\ err' = "none" /\ UNCHANGED <<m, last, nv>>
     /\ step' = Obs("copy", <<>>)
 
 CAdd(n, v) ==
+    /\ On("cadd")
     /\ hasc
     /\ IF ValidName(n) /\ ValidValue(v) THEN c' = AddTo(c, Norm(n), v) /\ err' = "none"
                                         ELSE UNCHANGED c /\ err' = "HTTPInputError"
@@ -212,12 +225,14 @@ CAdd(n, v) ==
     /\ step' = Obs("cadd", <<n, v>>)
 
 CSet(n, v) ==
+    /\ On("cset")
     /\ hasc
     /\ c' = SetIn(c, Norm(n), v)
     /\ ret' = <<>> /\ err' = "none" /\ Consume /\ UNCHANGED <<m, hasc, last>>
     /\ step' = Obs("cset", <<n, v>>)
 
 CDel(n) ==
+    /\ On("cdel")
     /\ hasc
     /\ IF Has(c, Norm(n)) THEN c' = DelFrom(c, Norm(n)) /\ err' = "none"
                           ELSE UNCHANGED c /\ err' = "KeyError"
@@ -225,6 +240,7 @@ CDel(n) ==
     /\ step' = Obs("cdel", <<n>>)
 
 CGet(n) ==
+    /\ On("cget")
     /\ hasc
     /\ IF Has(c, Norm(n)) THEN ret' = <<Join(ValuesOf(c, Norm(n)))>> /\ err' = "none"
                           ELSE ret' = <<>> /\ err' = "KeyError"
@@ -235,6 +251,7 @@ IsCont(line) == LET t == StripEol(line) IN t # <<>> /\ t[1] \in WS
 
 (* h.parse_line(line) *)
 ParseLine(line) ==
+    /\ On("parseline")
     /\ IsCont(line) => (last = <<>> \/ Has(m, last))        \* see header comment
     /\ LET r == PLApply([m |-> m, last |-> last, err |-> "none"], line) IN
        m' = r.m /\ last' = r.last /\ err' = r.err
@@ -243,32 +260,32 @@ ParseLine(line) ==
 
 (* HTTPHeaders.parse(str(h)) compared with h *)
 RoundTrip ==
+    /\ On("roundtrip")
     /\ ret' = Bool(RoundTrips(m)) /\ err' = "none"
     /\ UNCHANGED <<m, c, hasc, last, nv>>
     /\ step' = Obs("roundtrip", <<>>)
 
-On(a) == a \in Acts
 GoodNames == {n \in Names : ValidName(n)}
 GoodOffered == {v \in Offered : ValidValue(v)}
+OfferedLines == {FieldLine(n, v, f) : n \in Names, v \in Offered, f \in LineFormats}
+                \cup {ContLine(v, f) : v \in Offered, f \in ContFormats} \cup BadLines
 Next ==
-    \/ On("add") /\ \E n \in Names, v \in Offered : Add(n, v)
-    \/ On("set") /\ \E n \in GoodNames, v \in GoodOffered : Set(n, v)       \* set() does not validate: see header
-    \/ On("del") /\ \E n \in Names : Del(n)
-    \/ On("get") /\ \E n \in Names : Get(n)
-    \/ On("getlist") /\ \E n \in Names : GetList(n)
-    \/ On("in") /\ \E n \in Names : In(n)
-    \/ On("iter") /\ Iter
-    \/ On("items") /\ ItemsOp
-    \/ On("pop") /\ \E n \in Names : Pop(n)
-    \/ On("copy") /\ Copy
-    \/ On("cadd") /\ \E n \in Names, v \in Offered : CAdd(n, v)
-    \/ On("cset") /\ \E n \in GoodNames, v \in GoodOffered : CSet(n, v)
-    \/ On("cdel") /\ \E n \in Names : CDel(n)
-    \/ On("cget") /\ \E n \in Names : CGet(n)
-    \/ On("parseline") /\ \E n \in Names, v \in Offered, f \in LineFormats : ParseLine(FieldLine(n, v, f))
-    \/ On("parseline") /\ \E v \in Offered, f \in ContFormats : ParseLine(ContLine(v, f))
-    \/ On("parseline") /\ \E b \in BadLines : ParseLine(b)
-    \/ On("roundtrip") /\ RoundTrip
+    \/ \E n \in Names, v \in Offered : Add(n, v)
+    \/ \E n \in GoodNames, v \in GoodOffered : Set(n, v)       \* set() does not validate: see header
+    \/ \E n \in Names : Del(n)
+    \/ \E n \in Names : Get(n)
+    \/ \E n \in Names : GetList(n)
+    \/ \E n \in Names : In(n)
+    \/ Iter
+    \/ ItemsOp
+    \/ \E n \in Names : Pop(n)
+    \/ Copy
+    \/ \E n \in Names, v \in Offered : CAdd(n, v)
+    \/ \E n \in GoodNames, v \in GoodOffered : CSet(n, v)
+    \/ \E n \in Names : CDel(n)
+    \/ \E n \in Names : CGet(n)
+    \/ \E line \in OfferedLines : ParseLine(line)
+    \/ RoundTrip
 
 Spec == InitState /\ [][Next]_<<vars, step>>
 
